@@ -566,7 +566,7 @@ class Float_split(Contract):
     params = {'self': 'Float', 'n': 'int'}
     returns = 'tuple[Float, Float]'
     properties = ['C05']
-    options = {'solve_eqs': True}
+    no_use = ['RealFloat.split']         # verified against the body of RealFloat.split (inlined)
 
     def post(self, n, result):
         hi, lo = result
